@@ -76,7 +76,20 @@ fn encode_case(rng: &mut Rng, ctx: &mut Ctx) {
     let d = Duration::new((d_ns / 1_000_000_000) as u64, (d_ns % 1_000_000_000) as u32);
     ctx.begin("duration", json!({"duration_ns": d_ns.to_string()}));
     let mut r = tonic::Request::new(());
+    // the request may already carry a timeout (an earlier set_timeout, or metadata copied from
+    // another request): the new one replaces it
+    match rng.below(6) {
+        0 => r.set_timeout(Duration::from_secs(10)),
+        1 => {
+            r.metadata_mut().insert("grpc-timeout", "7S".parse().unwrap());
+        }
+        _ => {}
+    }
     r.set_timeout(d);
+    let n_values = r.metadata().get_all("grpc-timeout").iter().count();
+    if n_values != 1 {
+        ctx.violation("timeout-values", format!("after set_timeout the request carries {} grpc-timeout values: {:?}", n_values, r.metadata().get_all("grpc-timeout").iter().map(|v| String::from_utf8_lossy(v.as_bytes()).to_string()).collect::<Vec<_>>()));
+    }
     let v = match r.metadata().get("grpc-timeout") {
         Some(v) => v.as_bytes().to_vec(),
         None => {
@@ -259,7 +272,7 @@ fn enforce_case(rng: &mut Rng, ctx: &mut Ctx) {
         max_frame: None,
         seed: rng.u64(),
         server_timeout: server_ms.map(Duration::from_millis),
-        endpoint_timeout: endpoint_ms.map(Duration::from_millis), max_connection_age: None, opts: 0,
+        endpoint_timeout: endpoint_ms.map(Duration::from_millis), max_connection_age: None, opts: 0, listener_faults: vec![],
     };
     let case_json = json!({"shape": format!("{:?}", shape), "caller_timeout_ms": header_ms, "server_timeout_ms": server_ms, "endpoint_timeout_ms": endpoint_ms, "handler_latency_ms": latency, "effective_ms": eff, "malformed_caller_header": malformed});
     if malformed.is_some() {
